@@ -34,13 +34,14 @@ STRINGS = ["", "abc", 'q"uote', "zażółć 日本", "it's", "line1\nline2", "ba
 
 
 class RefServer:
-    def __init__(self, sdl, seed=0, null_p=0.2, unique_scalars=None):
+    def __init__(self, sdl, seed=0, null_p=0.2, unique_scalars=None, scalar_values=None):
         self.schema = build_schema(sdl)
         self.rng = random.Random(seed)
         self.null_p = null_p
         self.calls = []  # one record per handled request
         self.unique_scalars = unique_scalars  # names of custom scalars whose every occurrence gets a unique raw
         self._uniq = 0
+        self.scalar_values = scalar_values or {}
 
     # -------------------------------------------------------------- values
     def leaf(self, t):
@@ -58,6 +59,8 @@ class RefServer:
             return r.choice(["1", "abc", "id-9"])
         if n == "Boolean":
             return r.choice([True, False])
+        if n in self.scalar_values:
+            return r.choice(self.scalar_values[n])
         if self.unique_scalars and n in self.unique_scalars:
             self._uniq += 1
             return f"{n}#{self._uniq}"
